@@ -406,13 +406,11 @@ Proof.
   intros p s dt H Hc Hdt. destruct H as (H1 & H2 & _). destruct (H1 Hc) as [Htp Hct].
   assert (Htm : timer s = None).
   { destruct (timer s) eqn:E; [|reflexivity]. destruct (H2 _ eq_refl); discriminate. }
-  cbv zeta. unfold step, gstep, tick. rewrite Hct, Htm, Hc.
+  destruct s as [n tp_ cn c ca ch di tm ef sp]. cbn in Hc, Htp, Hct, Htm. subst.
+  cbv zeta. unfold step, gstep, tick. cbn [ct timer conn now].
   replace (dt <=? 0) with false by (symmetry; apply Z.leb_gt; lia).
   unfold reader_iter. cbn [now check disc set_now negb].
-  destruct (wd_check (p_rt p) (check s) (disc s) (now s + dt)).
-  - destruct s; cbn in *; subst; repeat split.
-  - unfold send. cbn [tp conn set_check set_now]. rewrite Htp, Hc. destruct s; cbn in *; subst; split; reflexivity.
-  - destruct s; cbn in *; subst; split; reflexivity.
+  destruct (wd_check (p_rt p) ch di (n + dt)); cbn; repeat split.
 Qed.
 
 Lemma atcp_timer : forall p s w dt, Inv AsyncTcp s -> timer s = Some w -> 0 < dt -> now s <= w ->
@@ -431,13 +429,32 @@ Lemma atcp_timer : forall p s w dt, Inv AsyncTcp s -> timer s = Some w -> 0 < dt
 Proof.
   intros p s w dt H Htm Hdt Hn Hw. destruct H as (H1 & H2 & _). destruct (H2 _ Htm) as [Hc _].
   destruct (H1 Hc) as [Htp Hct].
-  unfold step, gstep, tick. rewrite Hct, Htm.
+  destruct s as [n tp_ cn c ca ch di tm ef sp]. cbn in Hc, Htp, Hct, Htm, Hn, Hw. subst.
+  unfold step, gstep, tick. cbn [ct timer conn now].
   replace (dt <=? 0) with false by (symmetry; apply Z.leb_gt; lia).
-  replace (w <=? now s + dt) with true by (symmetry; apply Z.leb_le; lia).
+  replace (w <=? n + dt) with true by (symmetry; apply Z.leb_le; lia).
   rewrite Z.max_l by lia. unfold atcp_check. cbn [now check disc tp conn set_now set_timer].
-  destruct (wd_check (p_rt p) (check s) (disc s) w).
-  - rewrite Htp, Hc. destruct s; cbn in *; subst; repeat split.
-  - unfold send. cbn [tp conn set_check set_now set_timer]. rewrite Htp, Hc.
-    destruct s; cbn in *; subst; repeat split.
-  - destruct s; cbn in *; subst; repeat split.
+  destruct (wd_check (p_rt p) ch di w); cbn; repeat split.
 Qed.
+
+(* --- the forms stated in Props/C20.v *)
+Lemma made_once_init : forall fl p es, 0 <= p_rt p ->
+  length (filter is_made (outputs fl p init es)) = links_made fl p init es.
+Proof. intros. apply made_once; [assumption|apply inv_init]. Qed.
+
+Lemma lost_once_init : forall fl p es, 0 <= p_rt p ->
+  length (filter is_lost (outputs fl p init es)) = links_lost fl p init es.
+Proof. intros. apply lost_once; [assumption|apply inv_init]. Qed.
+
+Lemma callbacks_alternate_init : forall fl p es, 0 <= p_rt p ->
+  alternate false (cbs (outputs fl p init es)) = true.
+Proof. intros. apply (callbacks_alternate fl p es init); [assumption|apply inv_init]. Qed.
+
+Lemma reconnect_follows_loss_sync : forall fl p s e, is_async fl = false -> Inv fl s ->
+  conn s = true -> conn (fst (step fl p s e)) = false -> user_event e = false ->
+  ct (fst (step fl p s e)) = CDialing /\ In (Attempt (now (fst (step fl p s e)))) (snd (step fl p s e)).
+Proof. intros. apply reconnect_follows_loss; try assumption. intro. congruence. Qed.
+
+Lemma retry_after_fail : forall fl p s, ct s = CDialing ->
+  step fl p s AttemptFail = (set_ct s (CSleeping (now s + p_rt p)), [Sleep (p_rt p)]).
+Proof. intros. apply g_fail_sleeps. assumption. Qed.
